@@ -149,6 +149,31 @@ struct Scenario {
     /// the provider flags of that `rip run` (the model derives the authority's environment and the overrides from them)
     #[serde(default)]
     cli_flags: Option<CliFlags>,
+    /// SHAPE of this scenario's canaries (see `SHAPES`): 0 mixed-case high entropy, 1 upper-case + digits + underscore (the
+    /// shape of an environment variable name / of AKIA..-style access keys), 2 digits only, 3 `sk-..`, 4 quotes / backslashes /
+    /// unicode around the core, 5 short (8 chars), 6 surrounding whitespace / control characters (CRLF key files), 7 tiny (3
+    /// chars: differential only, no canary search)
+    #[serde(default)]
+    shape: u8,
+    /// a MULTI-STEP scenario on one authority process: [warm-up that spawns a tool subprocess] -> [configuration files
+    /// edited: `phase2.layers` written] -> [the edited configuration loaded] -> [probe: a tool subprocess prints its environment]
+    #[serde(default)]
+    phase2: Option<Phase2>,
+}
+#[derive(Clone, Serialize, Deserialize, Debug, Default)]
+struct Phase2 {
+    /// how a subprocess is spawned BEFORE the edit: "session-tool" (tool envelope `bash echo warmup` on the session path), "task"
+    /// (pipes task), "provider-bash" (a run whose provider asks for `bash echo warmup`), "none"
+    warmup: String,
+    /// the files written after the warm-up (a file of `layers` in the same slot is overwritten)
+    layers: Vec<Layer>,
+    /// what loads the edited configuration before the probe: "doctor" (GET /config/doctor), "run" (the probe run itself: the thread
+    /// path resolves the configuration per request), "none" (control: nothing has loaded it when the probe spawns)
+    load: String,
+    /// "provider-bash" (a run whose provider asks for `bash printenv NAME; env`), "session-tool" (tool envelope), "task" (pipes task)
+    probe: String,
+    /// the variable the edited configuration names as `{ "env": NAME }`
+    name: String,
 }
 
 #[allow(dead_code)]
@@ -175,7 +200,11 @@ fn subst_opt(s: &Option<String>, m: &[(&str, &str)]) -> Option<String> {
 }
 fn concretise(sc: &Scenario, m: &[(&str, &str)]) -> Scenario {
     let mut c = sc.clone();
-    for l in &mut c.layers {
+    let p2: &mut [Layer] = match &mut c.phase2 {
+        Some(p) => &mut p.layers,
+        None => &mut [],
+    };
+    for l in c.layers.iter_mut().chain(p2.iter_mut()) {
         l.raw_text = subst_opt(&l.raw_text, m);
         for p in &mut l.providers {
             p.endpoint = subst_opt(&p.endpoint, m);
@@ -366,6 +395,17 @@ struct ChildSpec {
     /// `rip run <prompt> <these args>` before the doctor calls (CLI surface only)
     #[serde(default)]
     cli_run: Option<Vec<String>>,
+    #[serde(default)]
+    phase2: Option<ChildPhase2>,
+}
+#[derive(Serialize, Deserialize, Debug, Default)]
+struct ChildPhase2 {
+    warmup: String,
+    /// (absolute path, text) written after the warm-up
+    files: Vec<(String, String)>,
+    load: String,
+    probe: String,
+    name: String,
 }
 #[derive(Serialize, Deserialize, Debug, Default)]
 struct ChildObs {
@@ -391,6 +431,9 @@ struct ChildObs {
     /// invocations that failed only because the CLI's own 8 s wait for the authority it spawned expired (box load)
     #[serde(default)]
     cli_waits: u64,
+    /// multi-step scenarios: what the probing subprocess printed (`printenv NAME; env`)
+    #[serde(default)]
+    probe_out: Option<String>,
 }
 
 /// state of a process that is not our child: gone (or a zombie nobody reaped yet) = true
@@ -449,13 +492,15 @@ async fn child_drive_cli(spec: &ChildSpec, rip: &str) -> ChildObs {
         // the whole run through the CLI: `rip run <prompt> ..` (headless; prints the frames / the output / the metrics)
         let mut args: Vec<String> = vec!["run".into(), spec.prompt.clone()];
         args.extend(extra.iter().cloned());
-        if let Some(out) = run_cli(&mut obs, &args) {
+        let ran = run_cli(&mut obs, &args);
+        let happened = ran.is_some();
+        if let Some(out) = ran {
             obs.bodies.push(("rip run".into(), out));
         }
         // the thread's run_ended frame and the snapshot are written after the session ended (when the CLI returns)
         let cont_dir = Path::new(&spec.data_dir).join("continuity_streams");
         let snaps = Path::new(&spec.data_dir).join("snapshots");
-        for _ in 0..12000 {
+        for _ in 0..(if happened { 12000 } else { 0 }) {
             let ended = any_log_has(&cont_dir, "", "continuity_run_ended");
             let snap = std::fs::read_dir(&snaps).map(|rd| rd.flatten().any(|e| e.metadata().map(|m| m.len() > 0).unwrap_or(false))).unwrap_or(false);
             if ended && snap {
@@ -689,6 +734,117 @@ async fn sse_until(
     frames
 }
 
+/// one run through the authority: a thread message (per-request overrides) or a session input; returns the session id
+async fn drive_run(app: &Target, raw: &mut Vec<u8>, obs: &mut ChildObs, spec: &ChildSpec, prompt: &str) -> String {
+    if spec.thread {
+        let (_, b) = call(app, raw, obs, "POST", "/threads/ensure", None).await;
+        let tid = serde_json::from_slice::<Value>(&b).ok().and_then(|v| v["thread_id"].as_str().map(String::from)).unwrap_or_default();
+        let mut payload = json!({ "content": prompt });
+        if let Some(o) = &spec.ovr {
+            payload["openresponses"] = o.clone();
+        }
+        let (_, b) = call(app, raw, obs, "POST", &format!("/threads/{tid}/messages"), Some(payload)).await;
+        let sid = serde_json::from_slice::<Value>(&b).ok().and_then(|v| v["session_id"].as_str().map(String::from)).unwrap_or_default();
+        let events = Path::new(&spec.data_dir).join("events.jsonl");
+        let cont_dir = Path::new(&spec.data_dir).join("continuity_streams");
+        obs.session_frames = sse_until(app, raw, obs, &format!("/sessions/{sid}/events"), &|v| v["type"] == "session_ended", &|| log_has(&events, &sid, "session_ended"), 240).await;
+        obs.thread_frames = sse_until(app, raw, obs, &format!("/threads/{tid}/events"), &|v| v["type"] == "continuity_run_ended" && v["run_session_id"].as_str().map(|s| s == sid).unwrap_or(true), &|| any_log_has(&cont_dir, &sid, "continuity_run_ended"), 240).await;
+        for (m, u, body) in [
+            ("POST", format!("/threads/{tid}/provider-cursor-status"), Some(json!({}))),
+            ("POST", format!("/threads/{tid}/context-selection-status"), Some(json!({}))),
+            ("POST", format!("/threads/{tid}/compaction-status"), Some(json!({}))),
+            ("GET", format!("/threads/{tid}"), None),
+            ("GET", "/threads".to_string(), None),
+        ] {
+            call(app, raw, obs, m, &u, body).await;
+        }
+        sid
+    } else {
+        drive_session_input(app, raw, obs, spec, prompt).await
+    }
+}
+
+/// POST /sessions + input + SSE until the session ended + wait for the snapshot; returns the session id
+async fn drive_session_input(app: &Target, raw: &mut Vec<u8>, obs: &mut ChildObs, spec: &ChildSpec, input: &str) -> String {
+    let (_, b) = call(app, raw, obs, "POST", "/sessions", None).await;
+    let sid = serde_json::from_slice::<Value>(&b).ok().and_then(|v| v["session_id"].as_str().map(String::from)).unwrap_or_default();
+    call(app, raw, obs, "POST", &format!("/sessions/{sid}/input"), Some(json!({ "input": input }))).await;
+    let events = Path::new(&spec.data_dir).join("events.jsonl");
+    obs.session_frames = sse_until(app, raw, obs, &format!("/sessions/{sid}/events"), &|v| v["type"] == "session_ended", &|| log_has(&events, &sid, "session_ended"), 240).await;
+    // the snapshot is written after session_ended
+    let snap = Path::new(&spec.data_dir).join("snapshots").join(format!("{sid}.json"));
+    for _ in 0..6000 {
+        if snap.exists() && std::fs::metadata(&snap).map(|m| m.len() > 0).unwrap_or(false) {
+            break;
+        }
+        tokio::time::sleep(Duration::from_millis(10)).await;
+    }
+    sid
+}
+
+/// a tool command envelope on the session path: `{"tool":"bash","args":{"command":..}}` (no provider involved)
+async fn drive_tool_envelope(app: &Target, raw: &mut Vec<u8>, obs: &mut ChildObs, spec: &ChildSpec, command: &str) -> String {
+    let input = serde_json::to_string(&json!({ "tool": "bash", "args": { "command": command } })).unwrap();
+    drive_session_input(app, raw, obs, spec, &input).await
+}
+
+/// what the tool subprocesses of session `sid` printed on stdout, from the persisted log
+fn tool_stdout_of(data_dir: &Path, sid: &str) -> String {
+    let Ok(text) = std::fs::read_to_string(data_dir.join("events.jsonl")) else { return String::new() };
+    let mut out = String::new();
+    for l in text.lines() {
+        if !(l.contains(sid) && l.contains("\"type\":\"tool_stdout\"")) {
+            continue;
+        }
+        if let Ok(v) = serde_json::from_str::<Value>(l) {
+            if let Some(c) = v["chunk"].as_str() {
+                out.push_str(c);
+                if !c.ends_with('\n') {
+                    out.push('\n');
+                }
+            }
+        }
+    }
+    out
+}
+
+/// a background task (pipes / pty spawn sites of ripd) running `command`; returns its output when `want_output`
+async fn drive_task(app: &Target, raw: &mut Vec<u8>, obs: &mut ChildObs, mode: &str, command: &str, want_output: bool) -> Option<String> {
+    let (st, b) = call(app, raw, obs, "POST", "/tasks", Some(json!({ "tool": "bash", "args": { "command": command }, "execution_mode": mode }))).await;
+    let tid = serde_json::from_slice::<Value>(&b).ok().and_then(|v| v["task_id"].as_str().map(String::from)).unwrap_or_default();
+    if tid.is_empty() {
+        obs.errors.push(format!("POST /tasks ({mode}) gave {st} and no task id"));
+        return None;
+    }
+    let mut done = false;
+    for _ in 0..6000 {
+        let (_, b) = call(app, raw, obs, "GET", &format!("/tasks/{tid}"), None).await;
+        obs.bodies.pop();
+        obs.statuses.pop();
+        let stv = serde_json::from_slice::<Value>(&b).unwrap_or(Value::Null);
+        if matches!(stv["status"].as_str(), Some("exited") | Some("failed") | Some("cancelled")) {
+            done = true;
+            break;
+        }
+        tokio::time::sleep(Duration::from_millis(50)).await;
+    }
+    if !done {
+        obs.errors.push(format!("task {tid} ({mode}) did not finish"));
+    }
+    if !want_output {
+        return None;
+    }
+    let stream = if mode == "pty" { "pty" } else { "stdout" };
+    let (_, out) = call(app, raw, obs, "GET", &format!("/tasks/{tid}/output?stream={stream}&offset_bytes=0"), None).await;
+    // {task_id, stream, content, ..}
+    let text = serde_json::from_slice::<Value>(&out).ok().and_then(|v| v["content"].as_str().map(String::from)).unwrap_or_else(|| String::from_utf8_lossy(&out).to_string());
+    // the dump must be a real one: PATH is always there
+    if !text.contains("PATH") {
+        obs.errors.push(format!("task env dump ({mode}) shows no PATH: {}", text.chars().take(200).collect::<String>()));
+    }
+    Some(text)
+}
+
 async fn child_drive(spec: &ChildSpec) -> ChildObs {
     if let Some(rip) = &spec.rip_bin {
         return child_drive_cli(spec, rip).await;
@@ -753,76 +909,69 @@ async fn child_drive(spec: &ChildSpec) -> ChildObs {
     let (_, b) = call(&app, &mut raw, &mut obs, "GET", "/config/doctor", None).await;
     obs.doctor = serde_json::from_slice(&b).unwrap_or(Value::Null);
 
-    if spec.doctor_only {
-    } else if spec.thread {
-        let (_, b) = call(&app, &mut raw, &mut obs, "POST", "/threads/ensure", None).await;
-        let tid = serde_json::from_slice::<Value>(&b).ok().and_then(|v| v["thread_id"].as_str().map(String::from)).unwrap_or_default();
-        let mut payload = json!({ "content": spec.prompt });
-        if let Some(o) = &spec.ovr {
-            payload["openresponses"] = o.clone();
-        }
-        let (_, b) = call(&app, &mut raw, &mut obs, "POST", &format!("/threads/{tid}/messages"), Some(payload)).await;
-        let sid = serde_json::from_slice::<Value>(&b).ok().and_then(|v| v["session_id"].as_str().map(String::from)).unwrap_or_default();
-        let events = Path::new(&spec.data_dir).join("events.jsonl");
-        let cont_dir = Path::new(&spec.data_dir).join("continuity_streams");
-        obs.session_frames = sse_until(&app, &mut raw, &mut obs, &format!("/sessions/{sid}/events"), &|v| v["type"] == "session_ended", &|| log_has(&events, &sid, "session_ended"), 240).await;
-        obs.thread_frames = sse_until(&app, &mut raw, &mut obs, &format!("/threads/{tid}/events"), &|v| v["type"] == "continuity_run_ended", &|| any_log_has(&cont_dir, &sid, "continuity_run_ended"), 240).await;
-        for (m, u, body) in [
-            ("POST", format!("/threads/{tid}/provider-cursor-status"), Some(json!({}))),
-            ("POST", format!("/threads/{tid}/context-selection-status"), Some(json!({}))),
-            ("POST", format!("/threads/{tid}/compaction-status"), Some(json!({}))),
-            ("GET", format!("/threads/{tid}"), None),
-            ("GET", "/threads".to_string(), None),
-        ] {
-            call(&app, &mut raw, &mut obs, m, &u, body).await;
-        }
-    } else {
-        let (_, b) = call(&app, &mut raw, &mut obs, "POST", "/sessions", None).await;
-        let sid = serde_json::from_slice::<Value>(&b).ok().and_then(|v| v["session_id"].as_str().map(String::from)).unwrap_or_default();
-        call(&app, &mut raw, &mut obs, "POST", &format!("/sessions/{sid}/input"), Some(json!({ "input": spec.prompt }))).await;
-        let events = Path::new(&spec.data_dir).join("events.jsonl");
-        obs.session_frames = sse_until(&app, &mut raw, &mut obs, &format!("/sessions/{sid}/events"), &|v| v["type"] == "session_ended", &|| log_has(&events, &sid, "session_ended"), 240).await;
-        // the snapshot is written after session_ended
-        let snap = Path::new(&spec.data_dir).join("snapshots").join(format!("{sid}.json"));
-        for _ in 0..6000 {
-            if snap.exists() && std::fs::metadata(&snap).map(|m| m.len() > 0).unwrap_or(false) {
-                break;
+    if let Some(p2) = &spec.phase2 {
+        // MULTI-STEP: warm-up (a subprocess is spawned) -> the configuration files are edited -> load -> probe
+        match p2.warmup.as_str() {
+            "session-tool" => {
+                drive_tool_envelope(&app, &mut raw, &mut obs, spec, "echo warmup").await;
             }
-            tokio::time::sleep(Duration::from_millis(10)).await;
+            "task" => {
+                drive_task(&app, &mut raw, &mut obs, "pipes", "echo warmup", false).await;
+            }
+            "provider-bash" => {
+                drive_run(&app, &mut raw, &mut obs, spec, &format!("{} (warm-up)", spec.prompt)).await;
+            }
+            _ => {}
         }
+        for (path, text) in &p2.files {
+            if let Some(dir) = Path::new(path).parent() {
+                let _ = std::fs::create_dir_all(dir);
+            }
+            // written next to the target and renamed: a reader never sees a half-written file
+            let tmp = format!("{path}.rv-tmp");
+            if std::fs::write(&tmp, text).and_then(|_| std::fs::rename(&tmp, path)).is_err() {
+                obs.errors.push(format!("could not write the edited configuration file {path}"));
+            }
+        }
+        if p2.load == "doctor" {
+            let (_, b) = call(&app, &mut raw, &mut obs, "GET", "/config/doctor", None).await;
+            let d: Value = serde_json::from_slice(&b).unwrap_or(Value::Null);
+            if d["openresponses"]["api_key_source"].as_str() != Some(&format!("env:{}", p2.name)) {
+                obs.errors.push(format!("the edited configuration was not picked up: doctor says {}", d["openresponses"]));
+            }
+        }
+        let cmd = format!("printenv {}; env", p2.name);
+        let out = match p2.probe.as_str() {
+            "session-tool" => {
+                let sid = drive_tool_envelope(&app, &mut raw, &mut obs, spec, &cmd).await;
+                tool_stdout_of(Path::new(&spec.data_dir), &sid)
+            }
+            "task" => drive_task(&app, &mut raw, &mut obs, "pipes", &cmd, true).await.unwrap_or_default(),
+            _ => {
+                let sid = drive_run(&app, &mut raw, &mut obs, spec, &spec.prompt).await;
+                tool_stdout_of(Path::new(&spec.data_dir), &sid)
+            }
+        };
+        // the dump must be a real one: PATH is always there
+        if !out.lines().any(|l| l.starts_with("PATH=")) {
+            obs.errors.push(format!("the probe ({}) shows no PATH: {}", p2.probe, out.chars().take(200).collect::<String>()));
+        }
+        obs.probe_out = Some(out);
+    } else if spec.doctor_only {
+    } else {
+        drive_run(&app, &mut raw, &mut obs, spec, &spec.prompt).await;
     }
     if let Some(mode) = &spec.task_env_dump {
         // a background task that dumps its environment (pipes / pty spawn sites of ripd)
-        let (st, b) = call(&app, &mut raw, &mut obs, "POST", "/tasks", Some(json!({ "tool": "bash", "args": { "command": "env" }, "execution_mode": mode }))).await;
-        let tid = serde_json::from_slice::<Value>(&b).ok().and_then(|v| v["task_id"].as_str().map(String::from)).unwrap_or_default();
-        if tid.is_empty() {
-            obs.errors.push(format!("POST /tasks ({mode}) gave {st} and no task id"));
-        } else {
-            let mut done = false;
-            for _ in 0..6000 {
-                let (_, b) = call(&app, &mut raw, &mut obs, "GET", &format!("/tasks/{tid}"), None).await;
-                obs.bodies.pop();
-                obs.statuses.pop();
-                let stv = serde_json::from_slice::<Value>(&b).unwrap_or(Value::Null);
-                if matches!(stv["status"].as_str(), Some("exited") | Some("failed") | Some("cancelled")) {
-                    done = true;
-                    break;
-                }
-                tokio::time::sleep(Duration::from_millis(50)).await;
-            }
-            if !done {
-                obs.errors.push(format!("task {tid} ({mode}) did not finish"));
-            }
-            let stream = if mode == "pty" { "pty" } else { "stdout" };
-            let (_, out) = call(&app, &mut raw, &mut obs, "GET", &format!("/tasks/{tid}/output?stream={stream}&offset_bytes=0"), None).await;
-            // the dump must be a real one: PATH is always there
-            if !String::from_utf8_lossy(&out).contains("PATH") {
-                obs.errors.push(format!("task env dump ({mode}) shows no PATH: {}", String::from_utf8_lossy(&out).chars().take(200).collect::<String>()));
-            }
-        }
+        drive_task(&app, &mut raw, &mut obs, mode, "env", true).await;
     }
     let (_, b) = call(&app, &mut raw, &mut obs, "GET", "/config/doctor", None).await;
     obs.doctor_after = serde_json::from_slice(&b).unwrap_or(Value::Null);
+    if let Some(p2) = &spec.phase2 {
+        if obs.doctor_after["openresponses"]["api_key_source"].as_str() != Some(&format!("env:{}", p2.name)) {
+            obs.errors.push(format!("the edited configuration is not in effect at the end: doctor says {}", obs.doctor_after["openresponses"]));
+        }
+    }
     call(&app, &mut raw, &mut obs, "GET", "/tasks", None).await;
     tokio::time::sleep(Duration::from_millis(30)).await;
     std::fs::write(&spec.out_raw, &raw).unwrap();
@@ -870,6 +1019,23 @@ fn ev_call(call_id: &str, name: &str, args: &str) -> Vec<Value> {
         json!({"type":"response.output_item.added","output_index":0,"item":{"type":"function_call","call_id":call_id,"name":name,"arguments":args}}),
         json!({"type":"response.output_item.done","output_index":0,"item":{"type":"function_call","call_id":call_id,"name":name,"arguments":args}}),
     ]
+}
+/// the provider's answers for a whole scenario: the outcome's script, or - multi-step - the warm-up's and the probe's
+fn script_for_scenario(sc: &Scenario) -> Vec<Scripted> {
+    let Some(p2) = &sc.phase2 else { return script_for(sc.outcome) };
+    let ask = |id: &str, cmd: &str| {
+        let mut first = vec![ev_created(&format!("resp_{id}_1"))];
+        first.extend(ev_call(&format!("call_{id}"), "bash", &serde_json::to_string(&json!({ "command": cmd })).unwrap()));
+        vec![Scripted::sse_text(&sse(&first, true)), Scripted::sse_text(&sse(&[ev_created(&format!("resp_{id}_2")), ev_delta("done")], true))]
+    };
+    let mut v = vec![];
+    if p2.warmup == "provider-bash" {
+        v.extend(ask("w", "echo warmup"));
+    }
+    if p2.probe == "provider-bash" {
+        v.extend(ask("p", &format!("printenv {}; env", p2.name)));
+    }
+    v
 }
 fn script_for(outcome: u8) -> Vec<Scripted> {
     let echo = || {
@@ -1011,7 +1177,7 @@ impl Drop for DeadAddr {
 fn run_once(sc: &Scenario, key: &str, hdr: &str, num: &str) -> RunOut {
     let scratch = Scratch::new("c19");
     let root = scratch.path().to_path_buf();
-    let provider = ScriptedProvider::start(script_for(sc.outcome));
+    let provider = ScriptedProvider::start(script_for_scenario(sc));
     let prov = provider.url.trim_end_matches("/v1/responses").to_string();
     let dead_guard = DeadAddr::new();
     let dead = dead_guard.url.clone();
@@ -1058,6 +1224,13 @@ fn run_once(sc: &Scenario, key: &str, hdr: &str, num: &str) -> RunOut {
         rip_bin: if c.cli { rip_bin().map(|p| p.display().to_string()) } else { None },
         task_env_dump: c.task_env_dump.clone(),
         cli_run: c.cli_run.clone(),
+        phase2: c.phase2.as_ref().map(|p| ChildPhase2 {
+            warmup: p.warmup.clone(),
+            files: p.layers.iter().map(|l| (root.join(layer_relpath(l.slot, c.config_home)).display().to_string(), subst(&layer_text(l), &m))).collect(),
+            load: p.load.clone(),
+            probe: p.probe.clone(),
+            name: p.name.clone(),
+        }),
     };
     let spec_path = root.join("out/spec.json");
     std::fs::write(&spec_path, serde_json::to_vec(&spec).unwrap()).unwrap();
@@ -1070,7 +1243,7 @@ fn run_once(sc: &Scenario, key: &str, hdr: &str, num: &str) -> RunOut {
     if c.config_home {
         cmd.env("RIP_CONFIG_HOME", root.join("cfghome"));
     }
-    if c.layers.iter().any(|l| l.slot == 2) {
+    if c.layers.iter().chain(c.phase2.iter().flat_map(|p| p.layers.iter())).any(|l| l.slot == 2) {
         cmd.env("RIP_CONFIG", root.join(layer_relpath(2, false)));
     }
     cmd.env("NO_PROXY", "127.0.0.1,localhost");
@@ -1091,8 +1264,8 @@ fn run_once(sc: &Scenario, key: &str, hdr: &str, num: &str) -> RunOut {
     child_stdout.extend(std::fs::read(root.join("out/ripd.stdout")).unwrap_or_default());
     child_stderr.extend(std::fs::read(root.join("out/ripd.stderr")).unwrap_or_default());
     for (code, so, se) in &obs.cli_runs {
-        child_stdout.extend(format!("\n### rip config doctor -> exit {code}\n{so}").into_bytes());
-        child_stderr.extend(format!("\n### rip config doctor -> exit {code}\n{se}").into_bytes());
+        child_stdout.extend(format!("\n### rip .. -> exit {code}\n{so}").into_bytes());
+        child_stderr.extend(format!("\n### rip .. -> exit {code}\n{se}").into_bytes());
     }
     let parse_lines = |b: &[u8]| -> Vec<Value> { String::from_utf8_lossy(b).lines().filter_map(|l| serde_json::from_str::<Value>(l).ok()).collect() };
     let mut disk_session = vec![];
@@ -1315,8 +1488,10 @@ fn observe(r: &RunOut) -> Vec<u64> {
     for w in &warns {
         enc_str(&mut o, w);
     }
+    // (multi-step scenarios: the report AFTER the edit)
+    let doctor = if r.sc.phase2.is_some() { &r.obs.doctor_after } else { &r.obs.doctor };
     // 0. error texts of the per-source report, except those of files that do not parse / cannot be read (outside the model)
-    let errs: Vec<String> = r.obs.doctor["sources"]
+    let errs: Vec<String> = doctor["sources"]
         .as_array()
         .map(|a| {
             a.iter()
@@ -1333,7 +1508,7 @@ fn observe(r: &RunOut) -> Vec<u64> {
         enc_str(&mut o, e);
     }
     // 1. doctor summary
-    let d = &r.obs.doctor["openresponses"];
+    let d = &doctor["openresponses"];
     if d.is_object() {
         o.push(1);
         enc_ostr(&mut o, d["provider_id"].as_str());
@@ -1352,6 +1527,16 @@ fn observe(r: &RunOut) -> Vec<u64> {
         enc_ostr(&mut o, d["followup_user_message"].as_str());
     } else {
         o.push(0);
+    }
+    if r.sc.phase2.is_some() {
+        // which of the scenario's variables the probing subprocess saw (names only)
+        let out = r.obs.probe_out.clone().unwrap_or_default();
+        o.push(r.sc.env.len() as u64);
+        for (k, _) in &r.sc.env {
+            let pre = format!("{k}=");
+            o.push(out.lines().any(|l| l.starts_with(&pre)) as u64);
+        }
+        return o;
     }
     if r.sc.doctor_only {
         return o;
@@ -1515,15 +1700,27 @@ fn coq_case(c: &Scenario, obs: &[u64], m: &[(&str, &str)]) -> String {
     // decides itself whether the merged document fits the typed schema
     let mut layers: Vec<Layer> = c.layers.clone();
     layers.sort_by_key(|l| l.slot);
-    let ls = coq_list(&layers, |l| coq_doc(l, m));
     let env = coq_list(&c.env, |(k, v)| format!("({}, {})", coq_str(k), coq_str(v)));
+    // multi-step: the configurations this authority process loaded earlier (the files before the edit), and the files now
+    let mut before = "[]".to_string();
+    if let Some(p2) = &c.phase2 {
+        before = format!("[world_of (mkJWorld {} {} (mkOvr None None None None None))]", coq_list(&layers, |l| coq_doc(l, m)), env);
+        layers.retain(|l| !p2.layers.iter().any(|n| n.slot == l.slot));
+        layers.extend(p2.layers.iter().cloned());
+        layers.sort_by_key(|l| l.slot);
+    }
+    let ls = coq_list(&layers, |l| coq_doc(l, m));
     let ovr = match &c.ovr {
         None => "mkOvr None None None None None".to_string(),
         Some(o) => format!("mkOvr {} {} {} {} {}", coq_ostr(&o.endpoint), coq_ostr(&o.model), coq_obool(&o.stateless), coq_obool(&o.parallel), coq_ostr(&o.followup)),
     };
-    let outcome = if c.doctor_only { 99 } else { c.outcome as u64 };
+    // 98 / 97: multi-step probe with / without the edited configuration loaded before the subprocess is spawned
+    let outcome = match &c.phase2 {
+        Some(p2) => if p2.load == "none" { 97 } else { 98 },
+        None => if c.doctor_only { 99 } else { c.outcome as u64 },
+    };
     let cli = c.cli_flags.as_ref().map(|f| f.coq()).unwrap_or_else(|| "None".into());
-    format!("mkCase (world_of (mkJWorld {} {} ({}))) {} {} {} {}", ls, env, ovr, cli, coq_bool(c.thread), outcome, coq_list_n(obs))
+    format!("mkCase (world_of (mkJWorld {} {} ({}))) {} {} {} {} {}", ls, env, ovr, before, cli, coq_bool(c.thread), outcome, coq_list_n(obs))
 }
 
 // ------------------------------------------------------------------ independent doctor oracle
@@ -1593,6 +1790,84 @@ fn endpoint_variant(rng: &mut Rng, want: u8) -> String {
     }
 }
 
+// ------------------------------------------------------------------ canary shapes
+/// A leak can depend on what the secret LOOKS like (a hint that echoes an inline key shaped like a variable name, a
+/// pre-flight check that quotes a key with a stray CR, a "too short" warning): every channel and surface is run with
+/// canaries of every shape.
+const N_SHAPES: u8 = 8;
+fn shape_name(s: u8) -> &'static str {
+    ["mixed", "upper-snake", "digits", "sk-dash", "special-chars", "short", "whitespace-padded", "tiny"][(s % N_SHAPES) as usize]
+}
+const UPPER_CHARS: &[u8] = b"ABCDEFGHJKLMNPQRSTUVWXYZ0123456789";
+/// a canary core of shape `shape`; `which`: 0 key / 1 header secret of the first run, 2 / 3 of the second run (same length)
+fn shaped_core(rng: &mut Rng, shape: u8, which: usize) -> String {
+    let tag = ['K', 'H', 'k', 'h'][which];
+    let mixed = |rng: &mut Rng, n: usize| -> String { (0..n).map(|_| CORE_CHARS[rng.below(CORE_CHARS.len() as u64) as usize] as char).collect() };
+    match shape % N_SHAPES {
+        1 => {
+            let mut s = String::new();
+            s.push(['K', 'H', 'Q', 'J'][which]);
+            for _ in 0..31 {
+                s.push(UPPER_CHARS[rng.below(UPPER_CHARS.len() as u64) as usize] as char);
+            }
+            s
+        }
+        2 => {
+            let mut s = String::new();
+            s.push((b'1' + rng.below(9) as u8) as char);
+            for _ in 0..19 {
+                s.push((b'0' + rng.below(10) as u8) as char);
+            }
+            s
+        }
+        5 => format!("{tag}{}", mixed(rng, 7)),
+        7 => mixed(rng, 3),
+        _ => core(rng, tag),
+    }
+}
+/// the key value around the core ({{K}}; {{R}} = the core reversed), staying inside the shape
+fn key_template(rng: &mut Rng, shape: u8) -> String {
+    match shape % N_SHAPES {
+        0 => match rng.below(3) {
+            0 => "{{K}}".to_string(),
+            1 => "{{K}}-sk-or-v1-{{R}}".to_string(),
+            _ => "{{K}}+\"q\\=/{{R}}".to_string(),
+        },
+        1 => ["{{K}}", "ACME_PROD_{{K}}", "{{K}}_{{R}}", "_{{K}}"][rng.below(4) as usize].to_string(),
+        3 => ["sk-{{K}}", "sk-proj-{{K}}-{{R}}", "sk-ant-api03-{{K}}"][rng.below(3) as usize].to_string(),
+        4 => ["{{K}}+\"q\\=/{{R}}", "\"{{K}}\\", "{{K}}\u{e9}\u{2713}{{R}}", "'{{K}}' \\\"{{R}}", "\u{feff}{{K}}"][rng.below(5) as usize].to_string(),
+        6 => ["{{K}} ", " {{K}}", "{{K}}\t", "{{K}}\r", "{{K}}\n", "{{K}}\r\n"][rng.below(6) as usize].to_string(),
+        _ => "{{K}}".to_string(),
+    }
+}
+fn hdr_template(rng: &mut Rng, shape: u8) -> String {
+    match shape % N_SHAPES {
+        0 => "tok {{H}}; v=\"1\"".to_string(),
+        3 => "sk-{{H}}".to_string(),
+        4 => ["\"{{H}}\\", "tok '{{H}}' \\\"x"][rng.below(2) as usize].to_string(),
+        6 => ["{{H}} ", "{{H}}\t"][rng.below(2) as usize].to_string(),
+        _ => "{{H}}".to_string(),
+    }
+}
+/// (cannot be put into an HTTP header: control characters / non-ASCII, is not compared with the model: those + values HTTP trims)
+fn template_flags(t: &str) -> (bool, bool) {
+    let unsendable = t.chars().any(|c| (c.is_control() && c != '\t') || !c.is_ascii());
+    let padded = t.trim() != t;
+    (unsendable, unsendable || padded)
+}
+/// marks a scenario whose secrets were built from these templates
+fn apply_template_flags(sc: &mut Scenario, ts: &[&str]) {
+    for t in ts {
+        let (unsendable, outside_model) = template_flags(t);
+        if unsendable {
+            sc.secret_unsendable = true;
+        }
+        if outside_model {
+            sc.oracle_only = true;
+        }
+    }
+}
+
 fn gen_scenario(rng: &mut Rng, i: u64) -> Scenario {
     let mut sc = Scenario { prompt: format!("say hi #{i}"), ..Default::default() };
     sc.outcome = (i % 8) as u8;
@@ -1603,12 +1878,11 @@ fn gen_scenario(rng: &mut Rng, i: u64) -> Scenario {
     sc.config_home = rng.chance(1, 2);
     // the canary core at the front and its reverse at the back: a leak of a prefix or of a suffix of the key differs
     // between the two runs (differential) even when the decoration in the middle is the same
-    let key_wrapped = match rng.below(3) {
-        0 => "{{K}}".to_string(),
-        1 => "{{K}}-sk-or-v1-{{R}}".to_string(),
-        _ => "{{K}}+\"q\\=/{{R}}".to_string(),
-    };
-    let hdr_secret = "tok {{H}}; v=\"1\"".to_string();
+    // the shape rotates so that the 80 scenarios of the quick grid hold every (channel, shape) pair, and the thorough
+    // tier every (channel, outcome, shape) triple; the two adversarial channels bring their own values
+    sc.shape = if channel >= 8 { 0 } else { (((i % 8) + channel + i / 80) % N_SHAPES as u64) as u8 };
+    let key_wrapped = key_template(rng, sc.shape);
+    let hdr_secret = hdr_template(rng, sc.shape);
     let slot_choices: [u8; 7] = [0, 1, 2, 3, 4, 5, 6];
     let pick_slot = |rng: &mut Rng| *rng.pick(&slot_choices);
     let want = rng.below(3) as u8;
@@ -1770,6 +2044,11 @@ fn gen_scenario(rng: &mut Rng, i: u64) -> Scenario {
     // dedupe slots (one file per slot)
     sc.layers.sort_by_key(|l| l.slot);
     sc.layers.dedup_by_key(|l| l.slot);
+    let uses_hdr = sc.layers.iter().any(|l| l.providers.iter().any(|p| p.headers.iter().any(|h| h.1.contains("{{H}}"))));
+    apply_template_flags(&mut sc, &[&key_wrapped]);
+    if uses_hdr {
+        apply_template_flags(&mut sc, &[&hdr_secret]);
+    }
     sc
 }
 
@@ -1796,10 +2075,13 @@ fn gen_misfit(rng: &mut Rng, j: u64, full: bool) -> Scenario {
         sc.env.push(("RIP_OPENRESPONSES_ENDPOINT".into(), ep.clone()));
     }
     let pid = if rng.chance(1, 2) { "openrouter" } else { "acme" };
+    // the offending scalar and the well-typed secrets next to it take every shape that can be sent
+    sc.shape = [0u8, 1, 2, 3, 5, 7][((variant as u64 + 2 * slot as u64 + j / (nv * 7)) % 6) as usize];
+    let well_typed_key = if sc.shape == 0 { "{{K}}-sk-{{R}}".to_string() } else { key_template(rng, sc.shape) };
     let prov = ProvSpec {
         id: pid.into(),
         endpoint: Some(ep.clone()),
-        api_key: Some(KeySpec::Inline("{{K}}-sk-{{R}}".into())),
+        api_key: Some(KeySpec::Inline(well_typed_key)),
         headers: vec![("HTTP-Referer".into(), "https://example.com/app".into()), ("X-Api-Key".into(), "tok {{H}}; v=\"1\"".into())],
     };
     let bad = Layer { slot, providers: vec![prov.clone()], model: Some(format!("{pid}/fixture-model")), misfit: Some(variant), stateless: Some(true), ..Default::default() };
@@ -1863,7 +2145,10 @@ fn gen_startup(rng: &mut Rng, j: u64) -> Scenario {
         _ => "//{{Q}}/v1/responses",
     };
     sc.env.push(("RIP_OPENRESPONSES_ENDPOINT".into(), ep.into()));
-    sc.env.push(("RIP_OPENRESPONSES_API_KEY".into(), "{{K}}-sk-{{R}}".into()));
+    sc.shape = ((j + 1) % N_SHAPES as u64) as u8;
+    let key = if sc.shape == 0 { "{{K}}-sk-{{R}}".to_string() } else { key_template(rng, sc.shape) };
+    sc.env.push(("RIP_OPENRESPONSES_API_KEY".into(), key.clone()));
+    apply_template_flags(&mut sc, &[&key]);
     let tc = ["definitely-not-a-tool-choice", "function:   ", "none", "function:ls", " auto ", "Required"];
     if rng.chance(3, 4) {
         sc.env.push(("RIP_OPENRESPONSES_TOOL_CHOICE".into(), tc[(j % 6) as usize].into()));
@@ -1886,7 +2171,11 @@ fn gen_toolenv(rng: &mut Rng, j: u64) -> Scenario {
     sc.channel = "tool-prints-inherited-env".into();
     sc.config_home = rng.chance(1, 2);
     let slot = *rng.pick(&[0u8, 1, 2, 3, 4, 5, 6]);
-    let key = "{{K}}-sk-{{R}}".to_string();
+    sc.shape = ((j + j / 6) % N_SHAPES as u64) as u8;
+    let key = if sc.shape == 0 { "{{K}}-sk-{{R}}".to_string() } else { key_template(rng, sc.shape) };
+    if template_flags(&key).0 {
+        sc.secret_unsendable = true;
+    }
     match j % 6 {
         0 => {
             sc.env.push(("RIP_OPENRESPONSES_ENDPOINT".into(), "{{P}}/v1/responses".into()));
@@ -1938,9 +2227,20 @@ fn gen_clirun(rng: &mut Rng, j: u64) -> Scenario {
     let view = ["raw", "output", "metrics"][(j % 3) as usize];
     let mut args: Vec<String> = vec!["--view".into(), view.into()];
     let slot = *rng.pick(&[0u8, 1, 2, 3, 4, 5, 6]);
-    let key = "{{K}}-sk-{{R}}".to_string();
+    // the first five: one of each kind with the usual canaries; from then on the kinds again with every canary shape, the
+    // two `--provider` kinds (the only path on which the CLI itself touches the key) first and with the whitespace /
+    // control-character shapes first (a key exported from a CRLF file keeps its trailing CR)
+    let (variant, shape) = if j < 5 {
+        (j % 5, 0u8)
+    } else {
+        let k = j - 5;
+        ([4u64, 3, 4, 0, 3, 1, 4, 2][(k % 8) as usize], [6u8, 6, 1, 4, 2, 3, 5, 7][((k + k / 8) % 8) as usize])
+    };
+    sc.shape = shape;
+    let key = if shape == 0 { "{{K}}-sk-{{R}}".to_string() } else { key_template(rng, shape) };
+    apply_template_flags(&mut sc, &[&key]);
     let ep = endpoint_variant(rng, 0);
-    match j % 5 {
+    match variant {
         0 => {
             sc.channel = "cli-run:inline+header".into();
             sc.outcome = 0;
@@ -1994,6 +2294,131 @@ fn gen_clirun(rng: &mut Rng, j: u64) -> Scenario {
     sc
 }
 
+/// Canary SHAPES on the diagnostic surfaces: an inline key, a secret header value and an unselected provider's key of every
+/// shape, asked about through GET /config/doctor on the in-process router (with a run), on the real `ripd` process and
+/// through the real `rip config doctor`; further rounds supply the shaped key through the environment / an env reference.
+fn gen_shapes(rng: &mut Rng, j: u64) -> Scenario {
+    let shape = (j % N_SHAPES as u64) as u8;
+    let surface = (j / N_SHAPES as u64) % 3;
+    let kind = (j / (3 * N_SHAPES as u64)) % 3;
+    let mut sc = Scenario { prompt: format!("shape #{j}"), thread: true, shape, ..Default::default() };
+    sc.channel = format!("shape:{}", shape_name(shape));
+    sc.config_home = rng.chance(1, 2);
+    sc.real_authority = surface == 1;
+    sc.cli = surface == 2;
+    sc.doctor_only = surface != 0;
+    sc.outcome = [0u8, 1, 7][((j / 7) % 3) as usize];
+    let key = key_template(rng, shape);
+    let key2 = key_template(rng, shape);
+    let hdr = hdr_template(rng, shape);
+    apply_template_flags(&mut sc, &[&key, &hdr]);
+    let slot = (j % 7) as u8;
+    let ep = endpoint_variant(rng, 0);
+    let api_key = match kind {
+        0 => Some(KeySpec::Inline(key.clone())),
+        1 => {
+            sc.env.push(("RIP_OPENRESPONSES_API_KEY".into(), key.clone()));
+            None
+        }
+        _ => {
+            sc.env.push(("SHAPED_PROVIDER_KEY".into(), key.clone()));
+            Some(KeySpec::Env("SHAPED_PROVIDER_KEY".into()))
+        }
+    };
+    sc.layers.push(Layer {
+        slot,
+        providers: vec![
+            ProvSpec { id: "acme".into(), endpoint: Some(ep), api_key, headers: vec![("X-Api-Key".into(), hdr)] },
+            ProvSpec { id: "zz-unused".into(), endpoint: Some("{{P}}/unused/v1/responses".into()), api_key: Some(KeySpec::Inline(key2)), headers: vec![] },
+        ],
+        model: Some("acme/fixture-model".into()),
+        ..Default::default()
+    });
+    if rng.chance(1, 2) {
+        sc.env.push(("RIP_OPENRESPONSES_DUMP_REQUEST".into(), "1".into()));
+    }
+    sc
+}
+
+/// MULTI-STEP scenarios on ONE authority process (the configuration is re-read on every request, the process lives on):
+/// [a subprocess is spawned under configuration A] -> [a configuration file appears / is edited: a provider's key becomes
+/// `{ "env": NAME }`, NAME being in the authority's environment all along] -> [the edited configuration is loaded: doctor
+/// call, or the probe run's own per-request resolution] -> [probe: a tool subprocess runs `printenv NAME; env`].  For every
+/// config slot; the three spawn paths (bash tool by envelope, bash tool on the provider's request, pipes task); both run
+/// paths; in-process router and real `ripd` process.  The credential variables of the configuration loaded at spawn time
+/// must not be in what the subprocess sees, whatever was spawned before.
+fn gen_multistep(rng: &mut Rng, j: u64, n_combos: u64) -> Scenario {
+    let slot = (j % 7) as u8;
+    let combo = (j / 7) % n_combos;
+    let round = j / (7 * n_combos);
+    let mut sc = Scenario { prompt: format!("multi-step #{j}"), outcome: 9, ..Default::default() };
+    sc.config_home = rng.chance(1, 2);
+    sc.real_authority = (j + round) % 3 == 1;
+    sc.shape = [0u8, 1, 3, 5, 2, 4][((j + combo) % 6) as usize];
+    let mut key = if sc.shape == 0 { "{{K}}-sk-{{R}}".to_string() } else { key_template(rng, sc.shape) };
+    while template_flags(&key).0 {
+        // the probe runs need a key that can be sent
+        key = key_template(rng, sc.shape);
+    }
+    let name = ["ACME_LLM_TOKEN", "MY_PROVIDER_KEY", "acme_gateway_key"][((j / 7 + j) % 3) as usize];
+    // (warm-up, load, probe, thread path, how the files change)
+    let (warmup, load, probe, thread, mode) = match combo {
+        0 => ("session-tool", "doctor", "session-tool", false, 0),
+        1 => ("provider-bash", "run", "provider-bash", true, 1),
+        2 => ("task", "doctor", "task", false, 2),
+        3 => ("session-tool", "run", "provider-bash", true, 3),
+        4 => ("provider-bash", "doctor", "provider-bash", false, 0),
+        5 => ("none", "doctor", "session-tool", false, 1),
+        _ => ("session-tool", "none", "session-tool", false, 0),
+    };
+    sc.thread = thread;
+    sc.channel = format!("multi-step:{warmup}>{}>{load}>{probe}", ["file-appears", "file-edited", "higher-layer-added", "reference-changed"][mode]);
+    let control = load == "none";
+    // the control (nothing loads the edited configuration before the probe spawns): the variable holds no secret, and the
+    // model says the subprocess sees it
+    sc.env.push((name.into(), if control { "not-a-secret-yet".into() } else { key.clone() }));
+    if !control && template_flags(&key).0 {
+        sc.secret_unsendable = true;
+    }
+    sc.env.push(("RV_PUBLIC_MARKER".into(), "visible-to-tools".into()));
+    let ep = "{{P}}/v1/responses".to_string();
+    let route = "acme/fixture-model".to_string();
+    let with_key = |k: Option<KeySpec>, headers: Vec<(String, String)>| ProvSpec { id: "acme".into(), endpoint: Some(ep.clone()), api_key: k, headers };
+    let full_b = Layer { slot, providers: vec![with_key(Some(KeySpec::Env(name.into())), vec![("X-Api-Key".into(), "tok {{H}}".into())])], model: Some(route.clone()), ..Default::default() };
+    let mut p2_layers = vec![];
+    match mode {
+        0 => {
+            // no file before; the run paths that need a provider before the edit get the endpoint from the environment
+            sc.env.push(("RIP_OPENRESPONSES_ENDPOINT".into(), ep.clone()));
+            p2_layers.push(full_b);
+        }
+        1 => {
+            sc.layers.push(Layer { slot, providers: vec![with_key(Some(KeySpec::Inline("public-decoy-key".into())), vec![])], model: Some(route.clone()), ..Default::default() });
+            p2_layers.push(full_b);
+        }
+        2 => {
+            let (lo, hi) = if slot == 0 { (0u8, 1 + rng.below(6) as u8) } else { (rng.below(slot as u64) as u8, slot) };
+            sc.layers.push(Layer { slot: lo, providers: vec![with_key(Some(KeySpec::Inline("public-decoy-key".into())), vec![])], model: Some(route.clone()), ..Default::default() });
+            p2_layers.push(Layer { slot: hi, providers: vec![ProvSpec { id: "acme".into(), endpoint: None, api_key: Some(KeySpec::Env(name.into())), headers: vec![("X-Title".into(), "tok {{H}}".into())] }], ..Default::default() });
+        }
+        _ => {
+            // the file named another variable before (it stays registered: names are never forgotten)
+            sc.env.push(("EARLIER_PROVIDER_KEY".into(), "earlier-{{K}}".into()));
+            sc.layers.push(Layer { slot, providers: vec![with_key(Some(KeySpec::Env("EARLIER_PROVIDER_KEY".into())), vec![])], model: Some(route.clone()), ..Default::default() });
+            p2_layers.push(full_b);
+        }
+    }
+    if !thread && (warmup == "provider-bash" || probe == "provider-bash") && !sc.env.iter().any(|(k, _)| k == "RIP_OPENRESPONSES_ENDPOINT") {
+        // the session path runs with the start-up configuration from the environment
+        sc.env.push(("RIP_OPENRESPONSES_ENDPOINT".into(), ep.clone()));
+    }
+    if rng.chance(1, 2) {
+        sc.env.push(("RIP_OPENRESPONSES_DUMP_REQUEST".into(), "1".into()));
+    }
+    sc.phase2 = Some(Phase2 { warmup: warmup.into(), layers: p2_layers, load: load.into(), probe: probe.into(), name: name.into() });
+    sc
+}
+
 /// frames of the two runs' SSE reads with the same seq (an SSE read may lack frames: see `sse_until`)
 fn sse_pairs(a: &[Value], b: &[Value]) -> Vec<(Vec<u8>, Vec<u8>)> {
     let mut out = vec![];
@@ -2003,6 +2428,22 @@ fn sse_pairs(a: &[Value], b: &[Value]) -> Vec<(Vec<u8>, Vec<u8>)> {
         }
     }
     out
+}
+
+/// GET /tasks answers with the values of a HashMap keyed by random task ids: with more than one task the order of the list is
+/// run-specific; for the differential the entries are ordered by their canonical text
+fn task_list_sorted(label: &str, body: &str, r: &RunOut) -> String {
+    if label != "GET /tasks" {
+        return body.to_string();
+    }
+    match serde_json::from_str::<Value>(body) {
+        Ok(Value::Array(items)) if items.len() > 1 => {
+            let mut texts: Vec<String> = items.iter().map(|x| String::from_utf8_lossy(&canon(x.to_string().as_bytes(), r)).to_string()).collect();
+            texts.sort();
+            format!("[{}]", texts.join(","))
+        }
+        _ => body.to_string(),
+    }
 }
 
 // ------------------------------------------------------------------ checks on a pair of runs
@@ -2033,6 +2474,10 @@ fn check_pair(a: &RunOut, b: &RunOut, cores: [&str; 6], sc: &Scenario) -> PairRe
         let names: Vec<u8> = r.files.iter().flat_map(|(p, _)| p.bytes().chain(std::iter::once(b'\n'))).collect();
         all.push(("file-names".into(), names));
         for core in cores {
+            if core.len() < 6 {
+                // a tiny secret cannot be searched for (it occurs by chance); the differential below still sees it
+                continue;
+            }
             for (form, pat) in canary_forms(core) {
                 for (name, bytes) in &all {
                     rep.checks += 1;
@@ -2088,7 +2533,16 @@ fn check_pair(a: &RunOut, b: &RunOut, cores: [&str; 6], sc: &Scenario) -> PairRe
             key_ok
         }
     };
-    if sc.outcome == 2 || sc.secret_unsendable || sc.doctor_only {
+    if let Some(p2) = &sc.phase2 {
+        // multi-step: when the probe is a thread-path run under the edited configuration the key behind NAME must have
+        // reached the provider (that the edit was picked up is checked on the doctor in every multi-step scenario)
+        if p2.probe == "provider-bash" && sc.thread && !sc.secret_unsendable && p2.load != "none" {
+            let any = |r: &RunOut, core: &str| r.recorded.iter().any(|req| req.headers.iter().any(|(k, v)| k == "authorization" && v.contains(core)));
+            rep.positive = any(a, cores[0]) && any(b, cores[2]);
+        } else {
+            rep.positive_na = true;
+        }
+    } else if sc.outcome == 2 || sc.secret_unsendable || sc.doctor_only {
         rep.positive_na = true;
     } else {
         rep.positive = reached(a, cores[0], cores[1]) && reached(b, cores[2], cores[3]);
@@ -2124,7 +2578,7 @@ fn check_pair(a: &RunOut, b: &RunOut, cores: [&str; 6], sc: &Scenario) -> PairRe
         ("doctor-after", serde_json::to_vec(&a.obs.doctor_after).unwrap(), serde_json::to_vec(&b.obs.doctor_after).unwrap()),
     ]
     .into_iter()
-    .chain(a.obs.bodies.iter().zip(b.obs.bodies.iter()).map(|(x, y)| ("http-response", format!("{} {}", x.0, x.1).into_bytes(), format!("{} {}", y.0, y.1).into_bytes())))
+    .chain(a.obs.bodies.iter().zip(b.obs.bodies.iter()).map(|(x, y)| ("http-response", format!("{} {}", x.0, task_list_sorted(&x.0, &x.1, a)).into_bytes(), format!("{} {}", y.0, task_list_sorted(&y.0, &y.1, b)).into_bytes())))
     .chain(sse_pairs(&a.obs.session_frames, &b.obs.session_frames).into_iter().map(|(x, y)| ("sse-frame", x, y)))
     .chain(sse_pairs(&a.obs.thread_frames, &b.obs.thread_frames).into_iter().map(|(x, y)| ("sse-frame", x, y)))
     {
@@ -2147,7 +2601,7 @@ fn check_pair(a: &RunOut, b: &RunOut, cores: [&str; 6], sc: &Scenario) -> PairRe
     // the key variable and its whole environment.  When every persisted session frame that holds a canary is a tool-output
     // frame (tool_stdout / tool_stderr / tool_ended / ..) the leak is exactly "tool output shows the inherited
     // environment"; anything else keeps its generic class.
-    if sc.outcome == 8 {
+    if sc.outcome == 8 || sc.phase2.is_some() {
         let tool_only = |r: &RunOut, cs: [&str; 2]| -> Option<bool> {
             let mut any = false;
             for f in &r.disk_session {
@@ -2165,9 +2619,13 @@ fn check_pair(a: &RunOut, b: &RunOut, cores: [&str; 6], sc: &Scenario) -> PairRe
             let (leaks, rest): (Vec<_>, Vec<_>) = rep.violations.drain(..).partition(|(c, _)| c.starts_with("secret_in_") || c.ends_with("_depends_on_secret"));
             rep.violations = rest;
             if let Some((_, first)) = leaks.first() {
+                let what = match &sc.phase2 {
+                    Some(p2) => format!("a subprocess spawned AFTER the configuration naming {} as a key source ({{ \"env\": \"{}\" }}, file written while the authority was running; warm-up: {}, loaded by: {}) still gets that variable: `printenv {}; env` shows the key in tool output", p2.name, p2.name, p2.warmup, p2.load, p2.name),
+                    None => "tool subprocesses inherit the authority's credential variables again: a provider-requested `printenv RIP_OPENRESPONSES_API_KEY; env` (or a background task running `env`) shows the env-supplied key in tool output".to_string(),
+                };
                 rep.violations.push((
                     "secret_in_tool_output_via_inherited_env".into(),
-                    format!("tool subprocesses inherit the authority's credential variables again: a provider-requested `printenv RIP_OPENRESPONSES_API_KEY; env` (or a background task running `env`) shows the env-supplied key in tool output ({} sink hits, e.g. {})", leaks.len(), first.chars().take(300).collect::<String>()),
+                    format!("{what} ({} sink hits, e.g. {})", leaks.len(), first.chars().take(300).collect::<String>()),
                 ));
             }
         }
@@ -2212,25 +2670,48 @@ fn main() {
         }
     }
     let n_fixed = scenarios.len();
-    for i in 0..n {
-        scenarios.push(gen_scenario(&mut rng, i));
-    }
     let full = args.thorough();
+    // the failing-input search (`--oracle-only 1`, run by ./check after an obligation / the correspondence broke): the
+    // targeted generators first, a wall-clock budget, and it stops at the first leak
+    let search = args.oracle_only();
+    let budget_s: u64 = args.extra.get("budget-s").and_then(|v| v.parse().ok()).unwrap_or(if search { 150 } else { u64::MAX / 4 });
+    let n_multi_combos: u64 = if full { 7 } else { 4 };
+    let n_multi: u64 = args.extra.get("multistep").and_then(|v| v.parse().ok()).unwrap_or(if full { 7 * 7 * 2 } else { 7 * 4 + 3 });
+    let n_shapes: u64 = args.extra.get("shapes").and_then(|v| v.parse().ok()).unwrap_or(N_SHAPES as u64 * 3 * if full { 3 } else { 1 });
     let n_misfit: u64 = args.extra.get("misfit").and_then(|v| v.parse().ok()).unwrap_or(N_MISFIT as u64 * 7 * if full { 3 } else { 1 });
-    for j in 0..n_misfit {
-        scenarios.push(gen_misfit(&mut rng, j, full));
+    let n_clirun: u64 = args.extra.get("clirun").and_then(|v| v.parse().ok()).unwrap_or(if full { 37 } else { 8 });
+    let n_toolenv: u64 = args.extra.get("toolenv").and_then(|v| v.parse().ok()).unwrap_or(if full { 24 } else { 6 });
+    let n_startup: u64 = args.extra.get("startup").and_then(|v| v.parse().ok()).unwrap_or(if full { 24 } else { 6 });
+    let grid = |rng: &mut Rng, scenarios: &mut Vec<Scenario>| {
+        for i in 0..n {
+            scenarios.push(gen_scenario(rng, i));
+        }
+    };
+    if !search {
+        grid(&mut rng, &mut scenarios);
     }
-    let n_clirun: u64 = args.extra.get("clirun").and_then(|v| v.parse().ok()).unwrap_or(if full { 30 } else { 5 });
+    for j in 0..n_multi {
+        // quick: the four main combinations for every config slot, then one of each remaining combination
+        let sc = if !full && j >= 28 { gen_multistep(&mut rng, (j - 28) % 7 + 7 * (4 + (j - 28) % 3), 7) } else { gen_multistep(&mut rng, j, n_multi_combos) };
+        scenarios.push(sc);
+    }
+    for j in 0..n_shapes {
+        scenarios.push(gen_shapes(&mut rng, j));
+    }
     for j in 0..n_clirun {
         scenarios.push(gen_clirun(&mut rng, j));
     }
-    let n_toolenv: u64 = args.extra.get("toolenv").and_then(|v| v.parse().ok()).unwrap_or(if full { 24 } else { 6 });
     for j in 0..n_toolenv {
         scenarios.push(gen_toolenv(&mut rng, j));
     }
-    let n_startup: u64 = args.extra.get("startup").and_then(|v| v.parse().ok()).unwrap_or(if full { 24 } else { 6 });
     for j in 0..n_startup {
         scenarios.push(gen_startup(&mut rng, j));
+    }
+    for j in 0..n_misfit {
+        scenarios.push(gen_misfit(&mut rng, j, full));
+    }
+    if search {
+        grid(&mut rng, &mut scenarios);
     }
     if rip_bin().is_none() {
         res.notes.push("real `rip` binary not found (harness/target-cli/debug/rip, or $RV_RIP_BIN): the CLI scenarios use the real `ripd` process over HTTP instead".into());
@@ -2249,22 +2730,35 @@ fn main() {
             sc.real_authority = false;
         }
     }
-    // canaries per scenario
-    let cores: Vec<[String; 6]> = (0..scenarios.len()).map(|_| [core(&mut rng, 'K'), core(&mut rng, 'H'), core(&mut rng, 'k'), core(&mut rng, 'h'), num_core(&mut rng), num_core(&mut rng)]).collect();
+    // canaries per scenario, of the scenario's shape: [key A, header A, key B, header B, number A, number B]
+    let cores: Vec<[String; 6]> = scenarios
+        .iter()
+        .map(|sc| [shaped_core(&mut rng, sc.shape, 0), shaped_core(&mut rng, sc.shape, 1), shaped_core(&mut rng, sc.shape, 2), shaped_core(&mut rng, sc.shape, 3), num_core(&mut rng), num_core(&mut rng)])
+        .collect();
 
-    // run (parallel over scenarios)
-    let results: std::sync::Mutex<Vec<Option<(RunOut, RunOut)>>> = std::sync::Mutex::new((0..scenarios.len()).map(|_| None).collect());
+    // run (parallel over scenarios); each worker also judges its pair, so that the search can stop at the first leak
+    let results: std::sync::Mutex<Vec<Option<(RunOut, RunOut, PairReport)>>> = std::sync::Mutex::new((0..scenarios.len()).map(|_| None).collect());
     let next = std::sync::atomic::AtomicUsize::new(0);
+    let stop = std::sync::atomic::AtomicBool::new(false);
+    let t_start = std::time::Instant::now();
     std::thread::scope(|s| {
         for _ in 0..jobs {
             s.spawn(|| loop {
+                if stop.load(std::sync::atomic::Ordering::SeqCst) || t_start.elapsed().as_secs() >= budget_s {
+                    break;
+                }
                 let i = next.fetch_add(1, std::sync::atomic::Ordering::SeqCst);
                 if i >= scenarios.len() {
                     break;
                 }
                 let a = run_once(&scenarios[i], &cores[i][0], &cores[i][1], &cores[i][4]);
                 let b = run_once(&scenarios[i], &cores[i][2], &cores[i][3], &cores[i][5]);
-                results.lock().unwrap()[i] = Some((a, b));
+                let c = &cores[i];
+                let rep = check_pair(&a, &b, [&c[0], &c[1], &c[2], &c[3], &c[4], &c[5]], &scenarios[i]);
+                if search && rep.violations.iter().any(|(class, _)| class.starts_with("secret_in_") || class.ends_with("_depends_on_secret") || class.starts_with("doctor_reports_more")) {
+                    stop.store(true, std::sync::atomic::Ordering::SeqCst);
+                }
+                results.lock().unwrap()[i] = Some((a, b, rep));
             });
         }
     });
@@ -2276,14 +2770,20 @@ fn main() {
     let mut positive_na = 0u64;
     let mut vacuous = 0u64;
     for (i, pair) in results.into_iter().enumerate() {
-        let (a, b) = pair.expect("scenario ran");
+        let Some((a, b, rep)) = pair else {
+            // only in the failing-input search: its budget ran out, or a leak was found and the search stopped
+            res.bump("search:scenarios-not-run (budget / stopped at the first leak)");
+            continue;
+        };
         let sc = &scenarios[i];
-        let c = &cores[i];
-        let rep = check_pair(&a, &b, [&c[0], &c[1], &c[2], &c[3], &c[4], &c[5]], sc);
         res.evaluations += 2;
         res.oracle_checks += rep.checks;
         res.bump(&format!("channel:{}", sc.channel));
         res.bump(&format!("outcome:{}", sc.outcome));
+        res.bump(&format!("canary-shape:{}", shape_name(sc.shape)));
+        if sc.phase2.is_some() {
+            res.bump("multi-step-scenarios (spawn, edit, load, probe)");
+        }
         res.bump(if sc.thread { "path:thread" } else { "path:session" });
         if sc.oracle_only {
             res.bump("oracle-only-scenarios (outside the model)");
